@@ -107,6 +107,13 @@ def gen(rng, cls):
         faults = ["sto 2 %d%s" % (rng.randrange(0, 4), rng.choice(["", " p"]))]
         streams[0]["n"] = rng.choice([3, 10, 30])
         window = ["start", rng.choice(["stop", "abort", "sleep 30"]), "stop", "reconfigure %d" % n, "start", "stop"]
+    elif cls == "camfaultmon":
+        # C06: the camera fails in the middle of an acquisition while a client monitors: what the client is handed stays a sequence of
+        # whole frames of this acquisition (the region the source had mapped for the failed frame is never committed)
+        faults = ["cam 0 %d%s" % (rng.randrange(1, 6), rng.choice(["", " p"]))]
+        streams[0]["n"] = rng.choice([8, 20, 30])
+        window = ["start"] + ["map 0", rng.choice(["unmap 0 all", "unmap 0 1"])] * rng.randrange(1, 4) + ["monwait 0", "stop",
+                  "reconfigure %d" % n, "start", "map 0", "unmap 0 all", "monwait 0", "stop"]
     elif cls == "camfault":
         faults = ["cam 0 %d%s" % (rng.randrange(0, 4), rng.choice(["", " p"]))]
         streams[0]["n"] = rng.choice([3, 10, 30])
